@@ -1,4 +1,163 @@
-import BiotiteModel.Model.C18Sdf
+import BiotiteModel.Proofs.C18
+import BiotiteModel.Gen.C18
+/-!
+# C18 — property theorems (MOL/SDF files; tables of the RDKit bridge)
+
+Only property statements and non-vacuity examples; helper lemmas are in `Proofs/C18.lean`.
+-/
 namespace BiotiteModel.C18
-theorem C18_stub : natRepr 12 = ['1', '2'] := by decide
+open BiotiteModel
+
+/-! ## Obligations on the tables regenerated from the source on every run -/
+
+/-- `dict.get` on a dict literal given in source order (a repeated key: the last one wins). -/
+def dictGet {κ ν : Type} [DecidableEq κ] (k : κ) : List (κ × ν) → Option ν
+  | [] => none
+  | (k', v) :: rest => match dictGet k rest with
+    | some r => some r
+    | none => if k' = k then some v else none
+
+/-- `{v: k for k, v in d.items()}`. -/
+def dictRev {κ ν : Type} (d : List (κ × ν)) : List (ν × κ) := d.map fun p => (p.2, p.1)
+
+/-- The model's bond tables are `BOND_TYPE_MAPPING` / `BOND_TYPE_MAPPING_REV` of the current source,
+for every code and every bond type. -/
+theorem C18_gen_bond_table :
+    (∀ c : Int, bondOfCode c = dictGet c Gen.C18.bondTypeMapping) ∧
+    (∀ t : Nat, codeOfBond t = (dictGet t (dictRev Gen.C18.bondTypeMapping)).map Int.toNat) := by
+  constructor
+  · intro c
+    unfold bondOfCode
+    split <;> first | rfl | simp_all [dictGet, Gen.C18.bondTypeMapping]
+  · intro t
+    unfold codeOfBond
+    split <;> first | rfl | simp_all [dictGet, dictRev, Gen.C18.bondTypeMapping]
+
+/-- Reading inverts writing on every bond type the bond block can express, and exactly
+`QUADRUPLE`, `AROMATIC_TRIPLE`, `COORDINATION` fall back to the default bond type. -/
+theorem C18_bond_table :
+    (∀ t ∈ [0, 1, 2, 3, 5, 6, 9], ∃ c, codeOfBond t = some c ∧ bondOfCode (c : Int) = some t) ∧
+    (∀ t ∈ [4, 7, 8], codeOfBond t = none) ∧
+    (∀ t, 10 ≤ t → codeOfBond t = none) ∧
+    Gen.C18.bondTypeEnum.map (·.2) = [0, 1, 2, 3, 4, 5, 6, 7, 8, 9] := by
+  refine ⟨by decide, by decide, ?_, by decide⟩
+  intro t ht
+  unfold codeOfBond
+  split <;> first | omega | rfl
+
+/-- The charge tables are those of the source; the atom block expresses −3…3 and every other
+charge is written as code 0 there (and literally in `M  CHG`). -/
+theorem C18_charge_table :
+    (∀ c : Int, chargeOfCode c = dictGet c Gen.C18.chargeMapping) ∧
+    (∀ q : Int, codeOfCharge q = ((dictGet q (dictRev Gen.C18.chargeMapping)).getD 0).toNat) ∧
+    (∀ q : Int, -3 ≤ q → q ≤ 3 → chargeOfCode (codeOfCharge q) = some q) ∧
+    (∀ q : Int, (q < -3 ∨ 3 < q) → codeOfCharge q = 0) := by
+  refine ⟨?_, ?_, ?_, ?_⟩
+  · intro c
+    unfold chargeOfCode
+    split <;> first | rfl | simp_all [dictGet, Gen.C18.chargeMapping]
+  · intro q
+    unfold codeOfCharge
+    split <;> first | rfl | simp_all [dictGet, dictRev, Gen.C18.chargeMapping]
+  · intro q h1 h2
+    have : q = -3 ∨ q = -2 ∨ q = -1 ∨ q = 0 ∨ q = 1 ∨ q = 2 ∨ q = 3 := by omega
+    rcases this with rfl | rfl | rfl | rfl | rfl | rfl | rfl <;> rfl
+  · intro q h
+    unfold codeOfCharge
+    split <;> first | omega | rfl
+
+/-- Running `(start, stop)` columns of an f-string template. -/
+def fieldSpans : Nat → List (String × Nat) → List (Nat × Nat)
+  | _, [] => []
+  | o, (_, w) :: rest => (o, o + w) :: fieldSpans (o + w) rest
+
+/-- Constants and column layout of the current source: 8 charges per `M  CHG` line; the V2000
+bound is `< 10³`, i.e. three columns; 5 pre-decimal digits; every slice the V2000 reader takes is
+exactly one field the V2000 writer prints; the lines are 39 / 69 / 21 characters wide. -/
+theorem C18_gen_layout :
+    Gen.C18.nChargesPerLine = nChargesPerLine ∧
+    Gen.C18.v2000Bounds = (v2000MaxCount, v2000MaxCount) ∧ v2000MaxCount = 10 ^ 3 ∧
+    Gen.C18.coordDigitLimits = [maxCoordDigits, maxCoordDigits] ∧
+    Gen.C18.readerSlices = [(0, 10), (10, 20), (20, 30), (31, 34), (36, 39), (6, 9), (0, 3), (3, 6)] ∧
+    Gen.C18.countsSlices = [(0, 3), (3, 6)] ∧ Gen.C18.versionSlice = [(33, 39)] ∧
+    (∀ s ∈ Gen.C18.readerSlices.take 5, s ∈ fieldSpans 0 Gen.C18.atomLineWidths) ∧
+    (∀ s ∈ Gen.C18.readerSlices.drop 5, s ∈ fieldSpans 0 Gen.C18.bondLineWidths) ∧
+    (∀ s ∈ Gen.C18.countsSlices, s ∈ fieldSpans 0 Gen.C18.countsLineWidths) ∧
+    (fieldSpans 0 Gen.C18.atomLineWidths).getLast? = some (66, 69) ∧
+    (fieldSpans 0 Gen.C18.bondLineWidths).getLast? = some (18, 21) ∧
+    (fieldSpans 0 Gen.C18.countsLineWidths).getLast? = some (6, 39) := by
+  decide
+
+/-- The two RDKit bond tables: every bond type RDKit can express exactly (`ANY`, `SINGLE`,
+`DOUBLE`, `TRIPLE`, `QUADRUPLE` and, as a dative bond, `COORDINATION`) is mapped back to itself;
+the four aromatic types become `AROMATIC`, which `from_mol` re-types after kekulisation. -/
+theorem C18_rdkit_tables :
+    (∀ t ∈ [0, 1, 2, 3, 4, 8],
+      (dictGet t Gen.C18.toRdkit).bind (fun r => dictGet r Gen.C18.fromRdkit) = some t) ∧
+    (∀ t ∈ [5, 6, 7, 9], dictGet t Gen.C18.toRdkit = some "AROMATIC") ∧
+    dictGet "AROMATIC" Gen.C18.fromRdkit = none ∧
+    (∀ t ∈ [1, 2, 3], dictGet t Gen.C18.kekulizedToAromatic = some (t + 4)) := by
+  decide
+
+/-! ## Version selection -/
+
+/-- Counts that do not fit three columns select V3000, or raise `ValueError` when V2000 was asked
+for; a V2000 table is only ever written for fewer than 1000 atoms and bonds. -/
+theorem C18_version_switch (m : Mol) (d : Nat) :
+    (isV2000Compatible m.atoms.length m.bonds.length = false →
+        writeCtab m d .auto = writeV3000 m d ∧ writeCtab m d .v2000 = .error .valueError) ∧
+    (isV2000Compatible m.atoms.length m.bonds.length = true →
+        writeCtab m d .auto = writeV2000 m d ∧ writeCtab m d .v2000 = writeV2000 m d) ∧
+    writeCtab m d .v3000 = writeV3000 m d ∧ writeCtab m d .unknown = .error .valueError ∧
+    (isV2000Compatible m.atoms.length m.bonds.length = true ↔ m.atoms.length < 10 ^ 3 ∧ m.bonds.length < 10 ^ 3) := by
+  refine ⟨?_, ?_, rfl, rfl, ?_⟩
+  · intro h; simp [writeCtab, h]
+  · intro h; simp [writeCtab, h]
+  · simp [isV2000Compatible, v2000MaxCount]
+
+/-- Whatever `write_structure_to_ctab` returns starts either with the V3000 marker line or with
+a V2000 counts line whose two counts are below 1000. -/
+theorem C18_version_switch_lines (m : Mol) (d : Nat) (v : Version) (ls : List Line)
+    (h : writeCtab m d v = .ok ls) :
+    ls.head? = some compatLine ∨
+    (m.atoms.length < 1000 ∧ m.bonds.length < 1000 ∧
+      ls.head? = some (countsLineV2000 m.atoms.length m.bonds.length)) := by
+  have h3 : ∀ ls, writeV3000 m d = .ok ls → ls.head? = some compatLine := by
+    intro ls h
+    unfold writeV3000 at h
+    split at h
+    · cases h
+    · split at h
+      · cases h
+      · cases h; rfl
+  have h2 : ∀ ls, writeV2000 m d = .ok ls → ls.head? = some (countsLineV2000 m.atoms.length m.bonds.length) := by
+    intro ls h
+    unfold writeV2000 at h
+    split at h
+    · cases h
+    · split at h
+      · cases h
+      · cases h; rfl
+  cases v with
+  | auto =>
+    by_cases hc : isV2000Compatible m.atoms.length m.bonds.length = true
+    · right
+      simp only [writeCtab, hc, if_true] at h
+      have hb : m.atoms.length < 1000 ∧ m.bonds.length < 1000 := by
+        simpa [isV2000Compatible, v2000MaxCount] using hc
+      exact ⟨hb.1, hb.2, h2 ls h⟩
+    · left
+      simp only [writeCtab, hc] at h
+      exact h3 ls h
+  | v2000 =>
+    by_cases hc : isV2000Compatible m.atoms.length m.bonds.length = true
+    · right
+      simp only [writeCtab, hc] at h
+      have hb : m.atoms.length < 1000 ∧ m.bonds.length < 1000 := by
+        simpa [isV2000Compatible, v2000MaxCount] using hc
+      exact ⟨hb.1, hb.2, h2 ls (by simpa using h)⟩
+    · simp [writeCtab, hc] at h
+  | v3000 => left; exact h3 ls h
+  | unknown => simp [writeCtab] at h
+
 end BiotiteModel.C18
